@@ -176,3 +176,24 @@ P("seed-C12-2", ["C12"], "seeded/C12-2/patch.diff", rule="C12-R6")
 N("tok-rename-cursor", ["C12"], "tokenizers.py", "            if offset < token.start:\n                # capture plain text before each match\n",
   "            if token.start > offset:\n                # capture plain text before each match\n")
 N("tok-pop-default-arg", ["C12"], "tokenizers.py", "                    citation_tokens.pop(-1)\n                    all_tokens.pop(-1)\n", "                    citation_tokens.pop()\n                    all_tokens.pop()\n")
+
+# ------------------------------------------------------------------ C13
+B("c13-filter-from-global", ["C13"], "tokenizers.py", "            (s, e)\n            for e in self.extractors\n", "            (s, e)\n            for e in EXTRACTORS\n", rule="R-C13-2")
+B("c13-return-set", ["C13"], "tokenizers.py", "        return sorted(\n            unique_extractors, key=lambda e: self.extractor_order[id(e)]\n        )\n", "        return unique_extractors\n", rule="R-C13-6")
+B("c13-no-empty-guard", ["C13"], "tokenizers.py", "        if len(self.case_sensitive_filter):\n            for _, extractors in self.case_sensitive_filter.iter(text):\n                unique_extractors.update(extractors)\n",
+  "        for _, extractors in self.case_sensitive_filter.iter(text):\n            unique_extractors.update(extractors)\n", rule="R-C13-7")
+B("c13-no-ascii-guard", ["C13"], "tokenizers.py", "        if not text.isascii():\n", "        if False:\n", rule="R-C13-1")
+B("c13-lower-one-side", ["C13"], "tokenizers.py", "            for _, extractors in self.case_insensitive_filter.iter(\n                text.lower()\n            ):\n", "            for _, extractors in self.case_insensitive_filter.iter(\n                text\n            ):\n", rule="R-C13-4")
+B("c13-partition-gap", ["C13"], "tokenizers.py", "            e for e in self.extractors if not e.strings\n", "            e for e in self.extractors if not e.strings and not e.flags & re.I\n", rule="R-C13-3")
+B("c13-strings-always", ["C13"], "tokenizers.py", "        have_strings = re.escape(reporters[0]) in regex\n", "        have_strings = True\n", rule="R-C13-1")
+B("c13-strings-first-only", ["C13"], "tokenizers.py", "            editions_by_regex[regex][\"strings\"].update(reporters)\n", "            editions_by_regex[regex][\"strings\"].add(reporters[0])\n", rule="R-C13-1")
+B("c13-stopword-string-missing", ["C13"], "tokenizers.py", "                strings=STOP_WORDS,\n", "                strings=STOP_WORDS[1:],\n", rule="R-C13-1")
+B("c13-id-string-no-dot", ["C13"], "tokenizers.py", '                strings=["id.", "ibid."],\n', '                strings=["id.,", "ibid."],\n', rule="R-C13-1")
+B("c13-hits-intersected", ["C13"], "tokenizers.py", "            for _, extractors in self.case_sensitive_filter.iter(text):\n                unique_extractors.update(extractors)\n",
+  "            for _, extractors in self.case_sensitive_filter.iter(text):\n                unique_extractors.intersection_update(extractors)\n", rule="R-C13-5")
+B("c13-group-overwrites", ["C13"], "tokenizers.py", "            grouped[string].append(extractor)\n", "            grouped[string] = [extractor]\n", rule="R-C13-5")
+P("seed-C13-1", ["C13"], "seeded/C13-1/patch.diff", rule="R-C13-1")
+P("seed-C13-2", ["C13"], "seeded/C13-2/patch.diff", rule="R-C13-5")
+N("c13-ignorecase-spelling", ["C13"], "tokenizers.py", "            if e.strings and not e.flags & re.I\n", "            if e.strings and not e.flags & re.IGNORECASE\n")
+N("c13-order-by-comprehension", ["C13"], "tokenizers.py", "        return sorted(\n            unique_extractors, key=lambda e: self.extractor_order[id(e)]\n        )\n",
+  "        return [e for e in self.extractors if e in unique_extractors]\n")
